@@ -45,7 +45,7 @@ def run_cases(work, cases, limit, tag):
         ev = {"ev": "decode", "id": c["id"], "entry": c["entry"], "s": c["s"], "bytes": c["bytes"], "limit": min(limit, MAXI),
               "origin": c.get("origin", ""), "heavy": bool(c.get("heavy", False)), "outcome": outcome, "largest": MAXI if outcome == "abort" else 0, "peak": 0,
               "gen": {"ok": False, "panic": False, "v": {"t": "none"}, "consumed": 0, "err": outcome},
-              "ser": {"ok": False, "panic": False, "v": {"t": "none"}, "consumed": 0, "err": outcome}}
+              "ser": {"ok": False, "panic": False, "v": {"t": "none"}, "consumed": 0, "err": outcome}, "res": []}
         with open(cout, "a") as f:
             f.write(json.dumps(ev) + "\n")
         start = begun + 1
@@ -140,7 +140,7 @@ def big_payload_cases(first_id, limits):
             continue
         lim = min(l for l in limits if l >= 4 * n)
         fx = {"k": "fixed", "name": f"Big{n}", "size": n}
-        for present in (0, 1, 100, 66000):
+        for present in (0, 1, 100, 3000):
             body = [7] * min(present, n - 1)
             for schema, prefix in (({"k": "bytes"}, _zz(n)), ({"k": "string"}, _zz(n)), (fx, []),
                                    (rec(f"RB{n}", {"k": "bytes"}), [2] + _zz(n)), (rec(f"RF{n}", fx), [2]),
